@@ -29,6 +29,7 @@ import math
 import numpy as np
 
 from ..drivers import fragments as FR
+from ..drivers import molecules as M
 from ..drivers import sp
 from .. import warm
 from ..pool import is_error, is_timeout, pmap
@@ -182,8 +183,41 @@ def run_boundary(t):
     return out
 
 
+def run_scan(t):
+    """history: ONE driver object evaluates a dimer scan whose cross pairs move in and out of a finite cutoff;
+    every point must equal the evaluation by a fresh driver (the pair list is a function of the geometry of the call)."""
+    import copy
+
+    import torch
+    from seqm.Molecule import Molecule
+    from seqm.seqm_functions.constants import Constants
+
+    pc = _params(t["method"], t["cutoff"])
+    es = None
+    out = {"points": []}
+    for R in t["Rs"]:
+        mol = _build(t, R)[0]
+        fresh = sp.single_point(mol, copy.deepcopy(pc), names=["Etot", "force", "q"])
+        spc, xyz, ch, mu = M.batch([mol])
+        if es is None:
+            molecule, es = sp.build([mol], pc)
+        else:
+            molecule = Molecule(Constants(), pc, torch.as_tensor(xyz), torch.as_tensor(spc))
+        molecule.verbose = False
+        es(molecule)
+        npairs = int(molecule.idxi.shape[0])
+        nref = len(FR.reference_pairs(mol["coords"], t["cutoff"]))
+        out["points"].append({
+            "R": R, "npairs": npairs, "nref": nref, "nc": bool(es.notconverged.any()) or bool(fresh["notconverged"].any()),
+            "dE": float(abs(sp.to_np(molecule.Etot)[0] - fresh["Etot"][0])),
+            "dF": float(np.abs(sp.to_np(molecule.force) - fresh["force"]).max()),
+            "dq": float(np.abs(sp.to_np(molecule.q) - fresh["q"]).max()),
+        })  # fmt: skip
+    return out
+
+
 def _dispatch(t):
-    return {"series": run_series, "cutoff": run_cutoff, "boundary": run_boundary}[t["kind"]](t)
+    return {"series": run_series, "cutoff": run_cutoff, "boundary": run_boundary, "scan": run_scan}[t["kind"]](t)
 
 
 def _tasks(tier, seed):
@@ -207,6 +241,11 @@ def _tasks(tier, seed):
     for names in _pairs():
         for o in orients:
             tasks.append(dict(kind="boundary", names=names, method="AM1", orient=o, seed=seed, atoms=[(0, 0), (1, 0), (0, 1), (1, 1)]))
+    scan_pairs = [("H2O", "H2O"), ("H2O", "HF"), ("NH3", "H2CO")] if tier == "quick" else _pairs()
+    for names in scan_pairs:
+        for m in (["AM1"] if tier == "quick" else ["AM1", "PM3"]):
+            for Rs in ([12.0, 3.5, 12.0], [3.5, 12.0, 3.5], [9.0, 5.0, 7.0, 12.0]):
+                tasks.append(dict(kind="scan", sys="dimer", names=names, method=m, orient=0, seed=seed, Rs=Rs, cutoff=7.0))
     return tasks
 
 
@@ -218,7 +257,7 @@ def run(chk, tier, seed):
     warm()  # import torch + seqm once in the parent; the forked children inherit them
     tasks = _tasks(tier, seed)
     cost = {"series": 3, "cutoff": 2, "boundary": 1}
-    order = sorted(range(len(tasks)), key=lambda i: -cost[tasks[i]["kind"]])
+    order = sorted(range(len(tasks)), key=lambda i: -cost.get(tasks[i]["kind"], 1))
     res = pmap(_dispatch, [tasks[i] for i in order], chunk=1, timeout=1200, progress=f"C19 {tier}")
     results = [None] * len(tasks)
     for i, r in zip(order, res):
@@ -289,6 +328,21 @@ def run(chk, tier, seed):
                             f"same system at R <= 22 A (fragments do not decouple like the leading multipole)",
                             replay=dict(t, Rs=sorted({R for R in RS if R <= NEAR_MAX} | {pt["R"]})),
                         )  # fmt: skip
+        elif t["kind"] == "scan":
+            n_eval += 2 * len(r["points"])
+            planned += len(r["points"])
+            for i, pt in enumerate(r["points"]):
+                key = f"{tag}|scan {t['Rs']} cutoff {t['cutoff']:g}|point {i} R={pt['R']:g}"
+                if pt["nc"]:
+                    chk.excluded += 1
+                    continue
+                chk.case(key, nontrivial=i > 0, outcome=f"{pt['npairs']}")
+                d = dict(base, kind="driver_history", R=pt["R"], cutoff=t["cutoff"], point=i)
+                if pt["npairs"] != pt["nref"]:
+                    chk.violation(d, f"{key}: reused driver works with {pt['npairs']} pairs, the geometry of this call has {pt['nref']} pairs inside the cutoff", replay=dict(t))
+                # a fresh driver gives bitwise the same numbers on the healthy tree
+                elif pt["dE"] > 1e-9 or pt["dF"] > 1e-8 or pt["dq"] > 1e-9:
+                    chk.violation(d, f"{key}: reused driver differs from a fresh one: dE={pt['dE']:.2e} dF={pt['dF']:.2e} dq={pt['dq']:.2e}", replay=dict(t))
         elif t["kind"] == "cutoff":
             n_eval += r["n_eval"]
             planned += len(t["Rs"]) * len(t["cutoffs"])
